@@ -199,6 +199,8 @@ pub struct Client {
     pub exp_yield: Vec<String>,
     /// number of 400 replies the server must have queued so far
     pub exp_400: usize,
+    /// for each expected 400: Some((limit, declared)) when it answers a payload-limit violation
+    pub exp_400_kinds: Vec<Option<(usize, usize)>>,
     /// tags of requests that were rejected / dropped (must never be yielded)
     pub rejected: Vec<String>,
     /// 100-continue responses queued in the current incarnation already accounted
@@ -218,6 +220,10 @@ pub struct Flags {
     pub witness: Option<usize>,
     /// released-when-answered oracle on closed clients
     pub release: bool,
+    /// clients that stay open must receive one 400 per rejected request (with both numbers for a
+    /// payload-limit violation), must have all their later well-formed requests yielded, and must
+    /// receive every response the application gave (C04 / C11 server level)
+    pub recovery: bool,
     pub prop: &'static str,
 }
 
@@ -256,6 +262,10 @@ pub struct ServerSim {
     pub poll_results: Vec<u8>,
     pub continue_waits: u64,
     pub err400_seen: u64,
+    /// a client received its 100 Continue while it was still withholding the body
+    pub got_100_while_withholding: u64,
+    /// a request was yielded from a connection that had a request rejected before
+    pub yield_after_error: u64,
 }
 
 fn tag_client(tag: &str) -> Option<usize> {
@@ -274,6 +284,24 @@ fn tag_client(tag: &str) -> Option<usize> {
 fn tag_of_path(p: &str) -> Option<String> {
     let t = p.strip_prefix('/')?;
     tag_client(t).map(|_| t.to_string())
+}
+
+/// does `text` contain the decimal number n as a whole number (not as part of a longer one)?
+fn contains_number(text: &str, n: usize) -> bool {
+    let pat = n.to_string();
+    let b = text.as_bytes();
+    let mut from = 0;
+    while let Some(p) = text[from..].find(&pat) {
+        let s = from + p;
+        let e = s + pat.len();
+        let left_ok = s == 0 || !b[s - 1].is_ascii_digit();
+        let right_ok = e >= b.len() || !b[e].is_ascii_digit();
+        if left_ok && right_ok {
+            return true;
+        }
+        from = s + 1;
+    }
+    false
 }
 
 pub fn app_response(version: u8, tag: &str, code: u16, pad: usize) -> (Response, Vec<u8>) {
@@ -353,6 +381,8 @@ impl ServerSim {
             poll_results: Vec::new(),
             continue_waits: 0,
             err400_seen: 0,
+            got_100_while_withholding: 0,
+            yield_after_error: 0,
         })
     }
 
@@ -461,6 +491,7 @@ impl ServerSim {
                                     read_total: 0,
                                     exp_yield: vec![],
                                     exp_400: 0,
+                                    exp_400_kinds: vec![],
                                     rejected: vec![],
                                     exp_100: 0,
                                 },
@@ -764,6 +795,11 @@ impl ServerSim {
                         if !asked {
                             return Err(self.v("unsolicited-100", format!("client {} received 100 Continue without having sent an Expect header", c)));
                         }
+                        let m = model_stream(&cl.sent, cl.limit_at_accept, WINDOW);
+                        let withholding = m.events.iter().rev().find(|e| matches!(e.1, MEvent::Continue(_))).map(|e| e.0 == cl.sent.len()).unwrap_or(false);
+                        if withholding {
+                            self.got_100_while_withholding += 1;
+                        }
                     }
                     400 => {
                         if cl.sent.is_empty() {
@@ -905,21 +941,31 @@ impl ServerSim {
         let lo = a - c.restart_at;
         let mut tags = Vec::new();
         let mut err = false;
+        let mut kind = None;
         for (at, e) in &m.events {
             if *at <= lo {
                 continue;
             }
             match e {
                 MEvent::Request(r) => tags.push(tag_of_path(&r.abs_path).unwrap_or_else(|| "untagged".to_string())),
-                MEvent::Error(_) => err = true,
+                MEvent::Error(k) => {
+                    err = true;
+                    if let crate::model::EK::SizeLimit(l, n) = k {
+                        kind = Some((*l, *n));
+                    }
+                }
                 MEvent::Continue(_) => {}
             }
         }
         if err || m.unspecified {
             c.rejected.extend(tags);
             c.exp_400 += 1;
+            c.exp_400_kinds.push(kind);
             c.restart_at = b;
         } else {
+            if c.exp_400 > 0 && !tags.is_empty() {
+                self.yield_after_error += 1;
+            }
             c.exp_yield.extend(tags);
         }
     }
@@ -1322,6 +1368,48 @@ impl ServerSim {
                 }
                 if !cl.eof_seen && !cl.reset_seen {
                     return Err(self.v("refused-client-not-disconnected", format!("refused client {} was not disconnected", id)));
+                }
+            }
+        }
+        if self.flags.recovery {
+            for id in &ids {
+                let cl = &self.clients[id];
+                if cl.closed || cl.shut_rd || cl.shut_wr || cl.accept != Accept::Served || cl.read_fault || cl.write_fault {
+                    continue;
+                }
+                // the server must have consumed everything this client sent
+                if cl.read_total != cl.sent.len() {
+                    return Err(self.v(
+                        "input-not-consumed",
+                        format!("client {} stays connected and sent {} byte(s); the server read only {} even after the drain", id, cl.sent.len(), cl.read_total),
+                    ));
+                }
+                // server-generated 400s only (the application may answer with a 400 of its own, which carries a tag)
+                let got400: Vec<&RespObs> =
+                    cl.resps.iter().filter(|r| r.code == 400 && !r.body.starts_with(b"<c") && !r.body.starts_with(b"<untagged>")).collect();
+                if got400.len() != cl.exp_400 {
+                    return Err(self.v(
+                        "wrong-number-of-400s",
+                        format!("client {} had {} request(s) rejected but received {} 400 response(s)", id, cl.exp_400, got400.len()),
+                    ));
+                }
+                for (r, k) in got400.iter().zip(cl.exp_400_kinds.iter()) {
+                    if let Some((l, n)) = k {
+                        let text = String::from_utf8_lossy(&r.body).to_string();
+                        if !contains_number(&text, *l) || !contains_number(&text, *n) {
+                            return Err(self.v(
+                                "limit-not-reported",
+                                format!("client {}: the 400 for a payload of {} with limit {} does not report both numbers: {:?}", id, n, l, text),
+                            ));
+                        }
+                    }
+                }
+                let want: Vec<String> = cl.responded.iter().map(|r| r.0.clone()).filter(|t| t != "untagged").collect();
+                if cl.got_tags != want {
+                    return Err(self.v(
+                        "response-not-delivered",
+                        format!("client {} stays connected; the application answered {:?} but the client received {:?}", id, want, cl.got_tags),
+                    ));
                 }
             }
         }
